@@ -220,6 +220,15 @@ impl Scenario for C02S {
         }
         let modes: &[&str] = if bytes { &["recv", "try"] } else { &["recv", "recv", "try", "timeout", "set", "set", "router"] };
         let decoys: Vec<u64> = (0..r.below(4)).map(|_| r.range(1, 40)).collect();
+        // transient buffer exhaustion re-splits messages in flight (thread senders only: a
+        // sim-process's bootstrap transmits too); a send that then reports an error is fine here
+        if !inproc && r.chance(1, 5) {
+            let f: Vec<Value> = (0..r.range(1, 3)).map(|_| json!({"k": "txerr", "pid": 2 + r.below(nsend), "nth": r.below(10), "errno": libc::ENOBUFS})).collect();
+            sim["faults"] = json!(f);
+            for s in senders.iter_mut() {
+                s["proc"] = json!(false);
+            }
+        }
         json!({"sim": sim, "bytes": bytes, "mode": *r.pick(modes), "senders": senders, "first": first as u64,
                "start_delay_us": if burst { *r.pick(&[500u64, 5000]) } else { *r.pick(&[0u64, 0, 0, 300]) }, "decoys": decoys})
     }
@@ -284,7 +293,8 @@ impl Scenario for C02S {
                 spawn_process(&format!("sender{}", i), (i + 1) as u32, tx.dup(), move |t: Tx| sender_body(t, sid, msgs));
             } else {
                 let t = tx.dup();
-                sim::spawn(&format!("sender{}", i), None, move || sender_body(t, sid, msgs));
+                // own sim-process id: transmission attempts (for injected refusals) are counted per sender
+                sim::spawn(&format!("sender{}", i), Some(2 + i as u32), move || sender_body(t, sid, msgs));
             }
         }
         drop(tx);
